@@ -3,6 +3,7 @@ package webrtc
 import (
 	"bytes"
 	"fmt"
+	"os"
 	"strings"
 	"sync"
 	"sync/atomic"
@@ -700,6 +701,9 @@ func TestVerifC19(t *testing.T) { //nolint:gocognit,cyclop,maintidx
 	defer run.Finish()
 	thorough := kit.Tier() == "thorough"
 	n := kit.N(24, 1000)
+	if os.Getenv("C19X") != "" { // TEMP
+		n = 0
+	}
 	var lateTotal, dupTotal, lostTotal, normalTotal atomic.Int64
 	run.Parallel(n, 12, func(i int) {
 		r := run.CaseRand(i)
@@ -1284,4 +1288,11 @@ func TestVerifC19(t *testing.T) { //nolint:gocognit,cyclop,maintidx
 	run.Set("datagrams_delivered_late", lateTotal.Load())
 	run.Set("datagrams_duplicated", dupTotal.Load())
 	run.Set("datagrams_lost", lostTotal.Load())
+
+	// second part: channels created by several goroutines while the data transport comes up (c19_bringup_test.go)
+	nbu := kit.N(60, 1500)
+	if os.Getenv("C19N") != "" {
+		fmt.Sscan(os.Getenv("C19N"), &nbu)
+	}
+	c19BringUp(run, nbu, 4)
 }
